@@ -61,6 +61,47 @@ CLAIMED = {
               'static abstract interpretation of emitted code is not a '
               'solver technique and is not built.'),
         design='DESIGN.md 4/C03'),
+    'C04': dict(
+        category='other',
+        text=('(1) Layout lemmas: the real memlayout functions on real '
+              'compilations (scalars, records, nested records, arrays of '
+              'rank 1-3 of scalars and records; locals, parameters, SHARED, '
+              'STATIC) with SYMBOLIC array lower bounds tile each frame / '
+              'the global area exactly and agree with the emitted frame '
+              'operands. (2) Element addressing: the real allocarr/arridx '
+              'instructions with symbolic lower bounds and two symbolic '
+              'index vectors give disjoint in-body cell ranges, or the '
+              'subscript trap. (3) Sentinel programs (symbolic index / '
+              'values, never-assigned neighbours, by-ref elements and '
+              'fields, recursion, STATIC, SHARED) against the reference.'),
+        note='rank <= 3, extents <= 4, element size <= 3, three layout '
+             'programs; dynamic bounds only through concrete programs.',
+        design='DESIGN.md 4/C04'),
+    'C09': dict(
+        category='other',
+        text=('Operand codecs: a synthetic instruction list covering every '
+              'operand kind through the real assembler with SYMBOLIC '
+              'operands (incl. the 1-byte push encodings that shift later '
+              'addresses): decoder, disassembler and listing agree and '
+              'every label operand is an instruction start, for all operand '
+              'values. Program images: all catalogue + extra programs x 6 '
+              'configurations: sections recovered exactly, operands '
+              'well-formed (native enumeration of concrete programs).'),
+        note='Literal / DATA text is concrete (cp437 codec is C code).',
+        design='DESIGN.md 4/C09'),
+    'C10': dict(
+        category='other',
+        text=('Programs with an error handler (RESUME, RESUME NEXT, ON '
+              'ERROR RESUME NEXT, GOTO 0, errors at expression depth / in '
+              'procedures / in loop bodies / in the handler, several errors '
+              'in sequence, falling off the end afterwards) compiled with '
+              '-g at O0-O2, SYMBOLIC operands deciding which statements '
+              'fail and how: trace and outcome equal the reference '
+              'statement-level semantics on every path and the operand '
+              'stack is clean at statement starts after every resumption.'),
+        note='ERR values are qbee trap codes; resume semantics asserted '
+             'for module-level statements only, as the property says.',
+        design='DESIGN.md 4/C10'),
     'C07': dict(
         category='other',
         text=('For each BASIC template feeding a builtin / operator / '
